@@ -22,12 +22,14 @@ fn models(tier: Tier) -> Vec<Model> {
             v.extend(gen::m2(0).into_iter().step_by(11));
             v.extend(gen::m3(0).into_iter().step_by(5));
             v.extend(gen::m4(0).into_iter().step_by(3));
+            v.extend(gen::m5(0).into_iter().step_by(1));
         }
         Tier::Thorough => {
             v.extend(gen::m1(1));
             v.extend(gen::m2(1).into_iter().step_by(7));
             v.extend(gen::m3(1).into_iter().step_by(3));
             v.extend(gen::m4(1));
+            v.extend(gen::m5(1).into_iter().step_by(1));
         }
     }
     v
